@@ -484,23 +484,32 @@ fn check_stmt_requires_semicolon(
         Stmt::Assignment(_)
         | Stmt::LocalAssignment(_)
         | Stmt::FunctionCall(_)
-        | Stmt::Repeat(_) => match next_stmt {
-            Some((Stmt::FunctionCall(function_call), _)) => match function_call.prefix() {
-                Prefix::Expression(expression) => {
-                    matches!(&**expression, Expression::Parentheses { .. })
-                }
-                _ => false,
-            },
-            Some((Stmt::Assignment(assignment), _)) => match assignment.variables().iter().next() {
-                Some(var) => var_has_parentheses(var),
-                _ => false,
-            },
-            #[cfg(feature = "luau")]
-            Some((Stmt::CompoundAssignment(compound_assignment), _)) => {
-                var_has_parentheses(compound_assignment.lhs())
+        | Stmt::Repeat(_) => check_next_stmt_starts_with_parentheses(next_stmt),
+        // A compound assignment also ends in an expression
+        #[cfg(feature = "luau")]
+        Stmt::CompoundAssignment(_) => check_next_stmt_starts_with_parentheses(next_stmt),
+        _ => false,
+    }
+}
+
+fn check_next_stmt_starts_with_parentheses(
+    next_stmt: Option<&&(Stmt, Option<TokenReference>)>,
+) -> bool {
+    match next_stmt {
+        Some((Stmt::FunctionCall(function_call), _)) => match function_call.prefix() {
+            Prefix::Expression(expression) => {
+                matches!(&**expression, Expression::Parentheses { .. })
             }
             _ => false,
         },
+        Some((Stmt::Assignment(assignment), _)) => match assignment.variables().iter().next() {
+            Some(var) => var_has_parentheses(var),
+            _ => false,
+        },
+        #[cfg(feature = "luau")]
+        Some((Stmt::CompoundAssignment(compound_assignment), _)) => {
+            var_has_parentheses(compound_assignment.lhs())
+        }
         _ => false,
     }
 }
